@@ -165,8 +165,12 @@ class Check:
     technique = 'deterministic simulation'
     rule = ''
     assumptions = []
-    quick_budget_s = 60
-    thorough_budget_s = 600
+    # The quick and thorough tiers explore a *fixed set of case indices* (0 .. N-1 for the given seed), not "whatever fits into
+    # a minute": a run on a faster or slower machine then judges exactly the same cases as the runs the registered evidence
+    # and the triage of the unchanged tree come from. The time budget is only a backstop for a slow or loaded machine (it can
+    # cut the set short, never extend it).
+    quick_budget_s = 200
+    thorough_budget_s = 2400
     jobs = 16
     max_cases = None
 
@@ -303,9 +307,17 @@ def gate(check, case, cls, sig):
 
 
 # ------------------------------------------------------------------------------------------- main driver
-def run_check(check, tier, seed=None, budget_s=None, jobs=None):
+# Number of cases of the quick tier per property (about one minute on 16 idle cores of the development sandbox); thorough = 10x.
+QUICK_CASES = {'C01': 3300, 'C02': 3000, 'C03': 3200, 'C04': 2300, 'C05': 1000, 'C06': 2600, 'C07': 2600, 'C08': 1100, 'C09': 1000, 'C10': 2600,
+               'C11': 3600, 'C12': 3500, 'C13': 2500, 'C18': 1200, 'C19': 2000, 'C20': 850, 'C21': 3500, 'C22': 3400, 'C23': 550, 'C24': 350,
+               'C25': 1100, 'C26': 4900, 'C30': 4600}
+THOROUGH_FACTOR = 10
+
+
+def run_check(check, tier, seed=None, budget_s=None, jobs=None, cases=None):
     t_start = time.time()
     pid = check.pid
+    explicit_budget = budget_s is not None or bool(float(os.environ.get('VERIF_BUDGET_S', '0') or 0))
     if seed is None:
         seed = int(os.environ.get('VERIF_SEED', '0') or 0) or (1000003 * int(pid[1:]) + 17)
     if budget_s is None:
@@ -313,6 +325,13 @@ def run_check(check, tier, seed=None, budget_s=None, jobs=None):
     if jobs is None:
         jobs = int(os.environ.get('VERIF_JOBS', '0') or 0) or check.jobs
     max_cases = check.max_cases
+    if cases is None:
+        cases = int(os.environ.get('VERIF_CASES', '0') or 0) or None
+    if cases is None and not explicit_budget:
+        q = QUICK_CASES.get(pid)
+        cases = q if tier == 'quick' else (q * THOROUGH_FACTOR if q else None)
+    if cases is not None:
+        max_cases = cases if max_cases is None else min(max_cases, cases)
     det_rate = 0.02
     deadline = time.time() + budget_s
     outq = mp.Queue()
@@ -445,7 +464,7 @@ def run_check(check, tier, seed=None, budget_s=None, jobs=None):
             'simulated_ticks': counters.get('sim-ticks', 0),
             'fault_kinds_fired': {k: v for k, v in sorted(counters.items()) if k.startswith('F-')},
             'reach_probes': {k: v for k, v in sorted(counters.items()) if k.startswith('P-')},
-            'workers': jobs, 'budget_s': budget_s,
+            'workers': jobs, 'budget_s': budget_s, 'case_indices': ('0..%d' % (max_cases - 1)) if max_cases else 'time-bounded',
             'technique': check.technique,
             'components': COMPONENTS,
             'known_findings_hit': known_hits,
